@@ -66,6 +66,9 @@ def _collect_typevars(d: t.Dict[t.Union[t.TypeVar, ParamSpec], None], ty: t.Any)
         ty = t.cast(t.Sequence[t.Any], ty)
         for arg in ty:
             _collect_typevars(d, arg)
+    elif isinstance(ty, t.Mapping):
+        for arg in t.cast(t.Mapping[str, t.Any], ty).values():
+            _collect_typevars(d, arg)
     elif hasattr(ty, '__typing_subst__') or isinstance(ty, (t.TypeVar, ParamSpec)):
         d.setdefault(ty)
     else:
@@ -109,6 +112,9 @@ def replace_typevars(ty: t.Any,
         return replacements.get(ty, ty)
     if isinstance(ty, t.Sequence) and not isinstance(ty, (str, bytes)):
         return type(ty)(replace_typevars(t, replacements) for t in ty)  # type: ignore
+    if isinstance(ty, t.Mapping):
+        # struct-like type
+        return {k: replace_typevars(v, replacements) for (k, v) in t.cast(t.Mapping[str, t.Any], ty).items()}
 
     if isinstance(ty, type) and '__pane_boundvars__' in ty.__dict__:
         # a subscripted pane dataclass: a real subclass rather than a `typing` alias,
